@@ -69,6 +69,10 @@ DM_STEPS = {
                                    "interpolated_disparity": "mc-cnn"}),
     "cross_sgm": ("validation", {"validation_method": "cross_checking_accurate", "cross_checking_threshold": 1.0,
                                  "interpolated_disparity": "sgm"}),
+    # multiscale entries are not part of walk()/shapes() menus by default (integer scalar intervals only);
+    # property modules that want them build the tails by hand
+    "ms2": ("multiscale", {"multiscale_method": "fixed_zoom_pyramid", "num_scales": 2, "scale_factor": 2, "marge": 1}),
+    "ms3": ("multiscale", {"multiscale_method": "fixed_zoom_pyramid", "num_scales": 3, "scale_factor": 2, "marge": 0}),
 }
 
 # steps that read a confidence band produced by an earlier step: alternatives, each a list of needed step names
